@@ -11,7 +11,7 @@ CALLS = {
     'send_binary': lambda ws, a: ws.send_binary(a),
     'send_ping': lambda ws, a: ws.send_ping(a),
     'send_pong': lambda ws, a: ws.send_pong(a),
-    'close': lambda ws, a: ws.close(*a),
+    'close': lambda ws, a: ws.close(*(a or (1000, 'goodbye'))),     # explicit arguments (defaults are not part of any property)
 }
 OPCODE = {'send_text': ref_ws.TEXT, 'send_binary': ref_ws.BINARY, 'send_ping': ref_ws.PING, 'send_pong': ref_ws.PONG,
           'close': ref_ws.CLOSE}
